@@ -184,3 +184,38 @@ def kmer_default_methods(F, rep):
 
 def dnastring_rc(F, rep):
     pass
+
+
+CONCURRENCY_PREFIXES = ("std::thread::", "rayon::", "std::sync::atomic", "core::sync::atomic", "std::sync::Mutex", "std::sync::RwLock",
+                        "std::sync::mpsc", "crossbeam", "std::sync::Condvar", "std::sync::Barrier")
+
+
+def own_concurrency(F, rep, rule):
+    """the crate starts no threads / uses no shared-memory primitives of its own; the only parallel entry points are the index
+    constructors.  New concurrency is not a violation in itself — it is outside what this analysis can decide."""
+    hits = []
+    par = []
+    for b in F.fns.values():
+        for bb in b["blocks"]:
+            t = bb["t"]
+            if t.get("k") != "call":
+                continue
+            fr = t["f"].get("const", {}).get("fn") if "const" in t["f"] else None
+            if not fr:
+                continue
+            p = fr.get("rpath") or fr.get("path", "")
+            if p.startswith(CONCURRENCY_PREFIXES) or fr.get("path", "").startswith(CONCURRENCY_PREFIXES):
+                hits.append((b, t, p))
+            if p.endswith("new_parallel"):
+                par.append((b, t, p))
+    if hits:
+        b, t, p = hits[0]
+        rep.inconclusive(rule, "own-concurrency", "%s uses %s: schedule independence of the crate's own concurrency is not decided by this analysis" % (b["path"], p),
+                         site=F.site(b, t.get("ln")))
+    else:
+        rep.holds(rule, "own-concurrency", "the crate itself spawns no threads and uses no atomics/locks")
+    callers = sorted({b["path"] for b, _, _ in par})
+    if all(c.endswith("::finish") for c in callers) and callers:
+        rep.holds(rule, "parallel-entry-points", "the only parallel constructor calls are in %s" % callers)
+    else:
+        rep.inconclusive(rule, "parallel-entry-points", "parallel index constructors are called from %s" % callers)
